@@ -92,19 +92,22 @@ pub fn record(output: &str) {
     quiet_panics();
     let mut out = Out::create(output);
     let mut r = rng(1212);
-    let n_cases = if thorough() { 36 } else { 6 };
+    let n_cases = if thorough() { 48 } else { 12 };
     let pools: Vec<usize> = if thorough() { vec![1, 2, 8, 16] } else { vec![1, 8] };
     let reps = if thorough() { 2 } else { 1 };
     for k in 0..n_cases {
-        let obstacle_class = ["free", "blocking", "grazing"][k % 3];
+        let obstacle_class = ["free", "blocking", "grazing", "at-stroke-pose"][k % 4];
         let y0 = r.gen_range(-0.25..-0.1);
         let y1 = r.gen_range(0.1..0.25);
         let x = r.gen_range(0.85..1.0);
         let z = r.gen_range(0.55..0.75);
         let yaw = if k % 2 == 0 { 0.0 } else { r.gen_range(-0.5..0.5) };
         let obstacle = match obstacle_class {
-            "blocking" => Some(WBox { c: [x, (y0 + y1) / 2.0, z - 0.02], h: [0.04, 0.03, 0.04] }),   // on the path of the tool body
+            "blocking" => Some(WBox { c: [x, (y0 + y1) / 2.0, z + 0.03], h: [0.04, 0.03, 0.04] }),   // on the path of the tool body
             "grazing" => Some(WBox { c: [x, (y0 + y1) / 2.0, z - 0.16], h: [0.04, 0.03, 0.04] }),    // below the tool tip path
+            // a thin plate exactly at the second stroke pose: only that pose (not its interpolated neighbours, which are
+            // a whole check step away) touches it
+            "at-stroke-pose" => Some(WBox { c: [x, y0 + (y1 - y0) / (2 + k % 3 - 1) as f64, z + 0.03], h: [0.04, 0.002, 0.04] }),
             _ => None,
         };
         let cell = cell(obstacle, if k % 4 == 3 { 10_000 } else { 0 });
@@ -113,17 +116,19 @@ pub fn record(output: &str) {
         let land = down_pose(x, y0, z + 0.1, yaw);
         let park = down_pose(x, y1, z + 0.1, yaw);
         let include = k % 2 == 0;
-        let max_cost = [6.0f64, 12.0, 3.0][k % 3].to_radians();
+        let max_cost = if obstacle_class == "at-stroke-pose" { 25.0f64.to_radians() } else { [6.0f64, 12.0, 3.0][k % 3].to_radians() };
+        // transition coefficients: the defaults, or a configuration that weighs some joints much more
+        let coeffs: Joints = match k % 3 { 0 => DEFAULT_TRANSITION_COSTS, 1 => [3.0, 2.5, 2.5, 0.9, 0.9, 3.5], _ => [2.4, 2.2, 2.2, 1.8, 1.8, 1.6] };
         let mut outcomes: Vec<bool> = Vec::new();
         let mut any_rrt = false;
         for &pool in &pools {
             for rep in 0..reps {
                 let planner = Cartesian {
                     robot: &cell.kws,
-                    check_step_m: [0.02, 0.05][k % 2],
+                    check_step_m: if obstacle_class == "at-stroke-pose" { 0.06 } else { [0.02, 0.05][k % 2] },
                     check_step_rad: 3.0f64.to_radians(),
                     max_transition_cost: max_cost,
-                    transition_coefficients: DEFAULT_TRANSITION_COSTS,
+                    transition_coefficients: coeffs,
                     linear_recursion_depth: [8, 3][(k / 2) % 2],
                     rrt: RRTPlanner { step_size_joint_space: 3.0f64.to_radians(), max_try: 1000, debug: false },
                     include_linear_interpolation: include,
@@ -174,7 +179,7 @@ pub fn record(output: &str) {
                                 let rot = here.drot(a).min(here.drot(b));
                                 seg_um = ((d.max(if a.drot(b) < 1e-9 { rot } else { 0.0 })) * 1e6).round() as i64;
                             }
-                            let cost = if i == 0 { 0.0 } else { transition_costs(&path[i - 1].joints, &w.joints, &DEFAULT_TRANSITION_COSTS) };
+                            let cost = if i == 0 { 0.0 } else { transition_costs(&path[i - 1].joints, &w.joints, &coeffs) };
                             out.put(json!({"ev": "wp", "i": i + 1, "flags": names, "q": au6(&w.joints), "collides": cell.kws.collides(&w.joints),
                                 "from": au6(&cell.from), "to": au6(&cell.to), "is_start": w.joints == cell.home,
                                 "fk_nm": fk_nm, "seg_um": seg_um, "cost_milli": ((cost / max_cost) * 1000.0).round() as i64}));
